@@ -289,6 +289,10 @@ func (g *pjGen) request(m *pjNode) string {
 	}
 	fill := func() string {
 		switch r.Intn(12) {
+		case 3: // a pattern match whose FIRST segment is forbidden (esbuild used not to look at it)
+			f := r.Pick([]string{"..", ".", "node_modules", "../x", "./x", "node_modules/x", "../../x", "..\\x", "node_modules/a/b", "./a/b"})
+			g.e.stat("gen-match-first-segment-forbidden")
+			return f
 		case 0:
 			return r.Pick([]string{"..", ".", "node_modules", "../x", "./x", "node_modules/x", "a/../b", "a/./b", "a/node_modules/b", "a//b", "/a", "a/", "", "..\\x", "a\\..\\b", "Node_Modules/x", "..a/b"})
 		case 1, 2:
@@ -446,6 +450,24 @@ func pjFeatures(root *pjNode, key string) []string {
 	return out
 }
 
+// the refused pattern match has a forbidden segment in first position and nowhere else
+func pjOnlyFirstSegmentForbidden(sub string) bool {
+	segs := strings.FieldsFunc(sub, func(c rune) bool { return c == '/' || c == '\\' })
+	if strings.HasPrefix(sub, "/") || strings.HasPrefix(sub, "\\") || len(segs) == 0 {
+		return false
+	}
+	bad := func(x string) bool { return x == "." || x == ".." || x == "node_modules" }
+	if !bad(segs[0]) {
+		return false
+	}
+	for _, x := range segs[1:] {
+		if bad(x) {
+			return false
+		}
+	}
+	return true
+}
+
 func pjFormat(class, arg string) string {
 	switch class {
 	case "invconfig", "notexported", "nocond", "hash", "nonotes":
@@ -601,6 +623,9 @@ func init() {
 					return pjFormat(class, arg)
 				})
 				e.stat("r0-" + class)
+				if class == "invspec" && pjOnlyFirstSegmentForbidden(arg) {
+					e.stat("r0-invspec-only-first-segment-forbidden")
+				}
 				e.emit(op(0), exp)
 				if class == "notfound" && pjNicePath(arg) && r.Bool() && !e.full() {
 					probe := 1 + r.Intn(3)
